@@ -184,3 +184,27 @@ def is_interface_procedure(prop="C10"):
               lambda v0, res, v1: res.t == z3.And(par(v0) != 0, c.classes.is_a(par(v0), "FortranInterface"), z3.Not(sel(H(v0, "generic"), par(v0)))))
     c.no_raise = True
     return c
+
+
+def graph_ident_obligation(prop="C10", replay=None):
+    """FortranGraph.__init__: a graph is saved as `<ident>.svg` / `.gv`.  Entity identifiers are unique per output directory only (NameSelector), and one graph class serves
+    several kinds of entity (programs and procedures have CallsGraphs), so the default identifier has to carry the directory of the root entity, its identifier and the graph class."""
+    import ast
+    from harness import loader
+    from harness.core import OR, PROVED, REFUTED, UNKNOWN
+    oid = f"{prop}.S.FortranGraph.__init__.graph_file_name_carries_directory_identifier_and_class"
+    fn = loader.find_def("ford.graphs", "FortranGraph.__init__")
+    assigns = {ast.unparse(n.targets[0]): n.value for n in ast.walk(fn) if isinstance(n, ast.Assign) and len(n.targets) == 1}
+    ident, self_ident, img = assigns.get("ident"), assigns.get("self.ident"), assigns.get("self.imgfile")
+    if ident is None or self_ident is None or img is None:
+        return [OR(id=oid, status=UNKNOWN, kind="S", target="ford.graphs.FortranGraph.__init__", detail="assignments to ident / self.ident / self.imgfile not found")]
+    t1, t2 = ast.unparse(ident), ast.unparse(self_ident)
+    ok = "root[0].get_dir()" in t1 and "root[0].ident" in t1 and "ident" in t2 and "__class__.__name__" in t2 and ast.unparse(img) == "self.ident"
+    r = OR(id=oid, status=PROVED if ok else REFUTED, kind="S", role="post", backend="ast", target="ford.graphs.FortranGraph.__init__",
+           desc=f"`ident = {t1[:70]}`, `self.ident = {t2[:60]}`, `self.imgfile = {ast.unparse(img)}`: directory, entity identifier and graph class all enter the file name")
+    if not ok:
+        r.witness = {"ident": t1, "self.ident": t2, "imgfile": ast.unparse(img)}
+        r.detail = "two graphs of different entities can get the same file name"
+        if replay:
+            r.replay = replay()
+    return [r]
